@@ -152,7 +152,7 @@ def reorderBy {α : Type} (key : α → Nat) (ord : List Nat) (l : List α) : Li
     the state as it is then (`hook.2`), unless that effect is the entry half of a configuration write
     whose values half was the previous effect (the real store call cannot be entered between them) -/
 def runPlan (w : World) (_actor : Id) (plan : Plan) (inject : Option (String × Nat))
-    (hook : Option (Nat × (Sys → Sys × List Id × String)) := none) :
+    (hook : Option (Nat × (Sys → Sys × List Id × String)) := none) (hookAfter : Bool := false) :
     World × Nat × Bool × Option Id × Option String :=
   -- returns the world, the number of effects executed, error?, requeue, the pre-empting invocation's answer
   let isVals : Effect → Bool := fun e => match e with | .cfgVals _ _ => true | .cfgAVals _ _ => true | _ => false
@@ -162,7 +162,15 @@ def runPlan (w : World) (_actor : Id) (plan : Plan) (inject : Option (String × 
     -- (sys, queue additions, executed, error, completed, pre-emption answer)
     match fuel, effs with
     | 0, _ => (s, q, k, false, false, ires)
-    | _, [] => (s, q, k, false, true, ires)
+    | _, [] =>
+      -- a pre-emption after the last effect: the other invocation runs, this one returns as planned
+      (match hook with
+        | some (n, f) =>
+          if n = k && hookAfter && ires.isNone then
+            let (s1, q1, out) := f s
+            (s1, q ++ q1, k, false, true, some out)
+          else (s, q, k, false, true, ires)
+        | none => (s, q, k, false, true, ires))
     | fuel + 1, e :: rest =>
       -- pre-emption point
       let (s, q, ires) :=
@@ -219,13 +227,14 @@ def runPlan (w : World) (_actor : Id) (plan : Plan) (inject : Option (String × 
 /-- one whole invocation of `id` on world `w0`: plan, hint search over the iteration orders of the Go
     maps (`vals=`, `devlog=`, `rb=` hints under the given key prefix), execution -/
 def runOne (w0 : World) (id : Id) (env : Env) (hints : List String) (pfx : String)
-    (inject : Option (String × Nat)) (hook : Option (Nat × (Sys → Sys × List Id × String))) :
+    (inject : Option (String × Nat)) (hook : Option (Nat × (Sys → Sys × List Id × String)))
+    (hookAfter : Bool := false) :
     (World × Nat × Bool × Option Id × Option String) × Plan :=
   let tgt : Nat := match id with
     | .prop p => p.1 | .cfg t => t | .mast t => t | .tx _ => 0
   let runWith (nC nU : Nat) : (World × Nat × Bool × Option Id × Option String) × Plan :=
     let plan := reconcile w0.sys id { env with ordU := nU, ordC := nC }
-    (runPlan w0 id plan inject hook, plan)
+    (runPlan w0 id plan inject hook hookAfter, plan)
   let okHints (r : (World × Nat × Bool × Option Id × Option String) × Plan) : Bool :=
     (match kv hints (pfx ++ "vals") with
       | some want =>
@@ -347,7 +356,9 @@ def handleIO (op : String) (args : List String) : IO (Option String) := do
               | _ => none
             let faults := (items.filter (·.startsWith "F.")).filterMap decFault
             let rids := items.filter (fun it => !it.startsWith "F.")
-            match kS.toNat?, rids with
+            -- `a<k>` = after effect k has completed = before effect k+1 (or after the last effect)
+            let kN : Option Nat := if kS.startsWith "a" then ((kS.drop 1).toString.toNat?).map (· + 1) else kS.toNat?
+            match kN, rids with
             | some k, [] =>
               some (k, fun s =>
                 let s1 := faults.foldl applyFault s
@@ -376,7 +387,10 @@ def handleIO (op : String) (args : List String) : IO (Option String) := do
                 (wB'.sys, wB'.queue ++ rqB.toList, s!"ires={rqS}/{errS}/{nB}/{mid}"))
             | _, _ => none
           | _ => none
-      let ((w', n, err, rq, ires), plan) := runOne w0 id env rest "" inject hook
+      let hookAfter : Bool := match kv rest "inter" with
+        | some v => v.startsWith "a"
+        | none => false
+      let ((w', n, err, rq, ires), plan) := runOne w0 id env rest "" inject hook hookAfter
       let planErr := plan.err && n == plan.effects.length && !err
       let w'' := { w' with queue := (w'.queue.erase id) ++ rq.toList }
       stateRef.set { st with w := w'' }
